@@ -3,6 +3,8 @@ package main
 import (
 	"fmt"
 	"strings"
+
+	"golang.org/x/tools/go/ssa"
 )
 
 // ---- bech32 (BIP-173) -----------------------------------------------------------------
@@ -195,6 +197,47 @@ func registerAddr(e *Engine) {
 		}
 		return nilErr()
 	})
+	bc := "github.com/cosmos/cosmos-sdk/codec/address"
+	if e.pkg(bc) != nil {
+		bcT := e.namedType(bc, "Bech32Codec")
+		var realS2B, realB2S *ssa.Function
+		for _, name := range []string{"StringToBytes", "BytesToString"} {
+			fn := e.prog.LookupMethod(bcT, e.pkg(bc).Pkg, name)
+			if name == "StringToBytes" {
+				realS2B = fn
+			} else {
+				realB2S = fn
+			}
+		}
+		e.reg("("+bc+".Bech32Codec).StringToBytes", func(fr *frame, args []value) value {
+			if ss, ok := args[1].(*SymStr); ok {
+				prefix, _ := args[0].(structure)[0].(string)
+				if len(ss.parts) == 2 && ss.parts[1].kind == "b" && strings.HasSuffix(ss.parts[0].s, "1~") {
+					if ss.parts[0].s != prefix+"1~" {
+						return tuple{[]value(nil), errValue(fr, "hrp does not match bech32 prefix: expected '%s' got '%s'", prefix, strings.TrimSuffix(ss.parts[0].s, "1~"))}
+					}
+					cp := make([]value, len(ss.parts[1].cells))
+					copy(cp, ss.parts[1].cells)
+					if len(cp) == 0 || len(cp) > 255 {
+						return tuple{[]value(nil), errValue(fr, "invalid address length")}
+					}
+					return tuple{cp, nilErr()}
+				}
+				abort("unmodelled", "bech32 codec decode of symbolic string %s", ss)
+			}
+			return runBody(fr, realS2B, args)
+		})
+		e.reg("("+bc+".Bech32Codec).BytesToString", func(fr *frame, args []value) value {
+			cells, _ := args[1].([]value)
+			if _, ok := concBytes(cells); ok || len(cells) == 0 {
+				return runBody(fr, realB2S, args)
+			}
+			prefix, _ := args[0].(structure)[0].(string)
+			cp := make([]value, len(cells))
+			copy(cp, cells)
+			return tuple{&SymStr{parts: []strPart{{s: prefix + "1~"}, {kind: "b", cells: cp}}}, nilErr()}
+		})
+	}
 	e.reg("github.com/cosmos/cosmos-sdk/types/bech32.ConvertAndEncode", func(fr *frame, args []value) value {
 		hrp := args[0].(string)
 		cells, _ := args[1].([]value)
